@@ -1,11 +1,16 @@
 // C20 harness: drives a real TeamCityTestOutput (subclassed only to capture printBuffer) through a private TestRegistry with
-// scripted tests and prints the captured byte stream.
-// Scenario:  <dur> <nfilters> { <name> } <ntests> { <group> <name> <file> <line> <ignored> <nstmts> { :p <text> | :f <file> <line> <msg> | :x <file> <line> <msg> } }
+// scripted tests and prints the captured byte stream and how often each test body was executed.
+// Scenario:  [ :opt <run-ignored 0|1> <passes> ] <dur> <nfilters> { <name> } <ntests> { <group> <name> <file> <line> <ignored> <nstmts> { :p <text> | :f <file> <line> <msg> | :x <file> <line> <msg> } }
+//            run-ignored = TestRegistry::setRunIgnored() (-ri) before the first pass; passes = how often TestRegistry::runAllTests is
+//            called on the same registry and the same output object, each time with a fresh TestResult (-r<n>, as
+//            CommandLineTestRunner::runAllTests does); without the prefix: off, one pass;
+//            an ignored test is an IgnoredUtestShell whose createTest() returns the scripted body (what IGNORE_TEST generates);
 //            dur = milliseconds every test that runs takes (the clock seam is advanced by the test body);
 //            filters = strict name filters (-sn): with at least one, only tests whose name equals one of them run;
 //            :p = TestResult::print(text), :f = addFailure (test continues), :x = fail() (test terminates)
 //            :raw <bytes>   -- parser differential only: answered by  :raw <bytes>  (no library code involved)
-// Observation: <stream>   everything the output object passed to printBuffer, in order.
+// Observation: <stream> <n> { <count> }   everything the output object passed to printBuffer, in order; then for every pass, for every
+//            registered test in order, how often testBody() of that test was entered during that pass (n = passes * ntests).
 #include "CppUTest/TestHarness.h"
 #include "CppUTest/TestRegistry.h"
 #include "CppUTest/TestResult.h"
@@ -24,35 +29,38 @@ static unsigned long now_ms = 0;
 static unsigned long dur_ms = 0;
 static unsigned long myMillis() { return now_ms; }
 
-class ScriptShell : public UtestShell
-{
-public:
-    const TestDef* def;
-    ScriptShell(const TestDef* d) : UtestShell(d->group.c_str(), d->name.c_str(), d->file.c_str(), d->line), def(d) {}
-    TestResult* res() { return getTestResult(); }
-    Utest* createTest() CPPUTEST_OVERRIDE;
-};
+static size_t cur_pass = 0, n_tests = 0;
+static std::vector<unsigned long> exec_counts;      // [pass * n_tests + index]
+
+struct HasResult { virtual TestResult* res() = 0; virtual ~HasResult() {} };
 class ScriptTest : public Utest
 {
 public:
-    ScriptShell* sh;
-    explicit ScriptTest(ScriptShell* s) : sh(s) {}
+    UtestShell* sh; HasResult* hr; const TestDef* def; size_t index;
+    ScriptTest(UtestShell* s, HasResult* h, const TestDef* d, size_t i) : sh(s), hr(h), def(d), index(i) {}
     void testBody() CPPUTEST_OVERRIDE
     {
+        exec_counts[cur_pass * n_tests + index]++;
         now_ms += dur_ms;
-        for (const Stmt& s : sh->def->body) {
-            if (s.kind == 'p') sh->res()->print(s.text.c_str());
+        for (const Stmt& s : def->body) {
+            if (s.kind == 'p') hr->res()->print(s.text.c_str());
             else if (s.kind == 'f') sh->addFailure(FailFailure(sh, s.file.c_str(), s.line, s.text.c_str()));
             else sh->fail(s.text.c_str(), s.file.c_str(), s.line);
         }
     }
 };
-Utest* ScriptShell::createTest() { return new ScriptTest(this); }
-class IgnoredScriptShell : public IgnoredUtestShell
+// the same scripted shell on top of UtestShell (TEST) and of IgnoredUtestShell (IGNORE_TEST): nothing but createTest is overridden,
+// so willRun / runOneTest / setRunIgnored are the library's
+template <class Base> class Scripted : public Base, public HasResult
 {
 public:
-    IgnoredScriptShell(const TestDef* d) : IgnoredUtestShell(d->group.c_str(), d->name.c_str(), d->file.c_str(), d->line) {}
+    const TestDef* def; size_t index;
+    Scripted(const TestDef* d, size_t i) : Base(d->group.c_str(), d->name.c_str(), d->file.c_str(), d->line), def(d), index(i) {}
+    TestResult* res() CPPUTEST_OVERRIDE { return this->getTestResult(); }
+    Utest* createTest() CPPUTEST_OVERRIDE { return new ScriptTest(this, this, def, index); }
 };
+typedef Scripted<UtestShell> ScriptShell;
+typedef Scripted<IgnoredUtestShell> IgnoredScriptShell;
 
 class CapturingTeamCityOutput : public TeamCityTestOutput
 {
@@ -72,6 +80,8 @@ int main()
             o << std::string(":raw") << hbytes(b.data(), b.size()); o.flush();
             continue;
         }
+        bool ri = false; int passes = 1;
+        if (t.peek() == ":opt") { t.next(); ri = t.u() != 0; passes = t.n(); if (passes < 0 || passes > 8) passes = 8; }
         dur_ms = (unsigned long)t.u(); now_ms = 0;
         int nf = t.n();
         std::vector<std::string> fnames((size_t)nf);
@@ -94,7 +104,7 @@ int main()
             std::vector<std::unique_ptr<UtestShell> > shells;
             TestRegistry reg;
             for (int i = 0; i < n; i++)
-                shells.emplace_back(defs[(size_t)i].ignored ? (UtestShell*)new IgnoredScriptShell(&defs[(size_t)i]) : (UtestShell*)new ScriptShell(&defs[(size_t)i]));
+                shells.emplace_back(defs[(size_t)i].ignored ? (UtestShell*)new IgnoredScriptShell(&defs[(size_t)i], (size_t)i) : (UtestShell*)new ScriptShell(&defs[(size_t)i], (size_t)i));
             for (int i = n - 1; i >= 0; i--) reg.addTest(shells[(size_t)i].get());
             std::vector<std::unique_ptr<TestFilter> > filters;
             TestFilter* chain = NULLPTR;
@@ -104,12 +114,18 @@ int main()
                 chain = filters.back()->add(chain);
             }
             reg.setNameFilters(chain);
+            if (ri) reg.setRunIgnored();
+            n_tests = (size_t)n; exec_counts.assign((size_t)passes * n_tests, 0);
             CapturingTeamCityOutput out;
-            TestResult result(out);
-            reg.runAllTests(result);
+            for (cur_pass = 0; cur_pass < (size_t)passes; cur_pass++) {
+                out.printTestRun(cur_pass + 1, (size_t)passes);
+                TestResult result(out);
+                reg.runAllTests(result);
+            }
             stream = out.captured;
         }
-        o << hbytes(stream.data(), stream.size());
+        o << hbytes(stream.data(), stream.size()) << hx(exec_counts.size());
+        for (unsigned long c : exec_counts) o << hx(c);
         o.flush();
     }
     return 0;
